@@ -172,6 +172,7 @@ SKIP_RNG = "if rng is None:\n    rng = np.random.RandomState()"
 SKIP_ROTATE = (
     "if hasattr(ra, '__len__'):\n    is_scalar = False\nelse:\n    is_scalar = True",
     "ra = np.atleast_1d(ra)", "dec = np.atleast_1d(dec)",
+    "ra = np.array(ra, ndmin=1, dtype='f8')", "dec = np.array(dec, ndmin=1, dtype='f8')",     # fixes/C09/0009
     "if ra.size != dec.size:\n    raise ValueError('ra[%d] has different size than dec[%d]' % (ra.size, dec.size))",
     "if is_scalar:\n    ra_out = ra_out[0]\n    dec_out = dec_out[0]",
 )
@@ -224,7 +225,8 @@ def translate(repo):
             and len(last.orelse) == 1):
         raise Untranslatable("randsphere: final branch")
     t = Tr(["u1", "u2"], subs={("ra_range", 0): "ra0", ("ra_range", 1): "ra1", ("dec_range", 0): "dec0", ("dec_range", 1): "dec1"})
-    lets = t.body(b[3:-1])
+    lets = t.body(b[3:-1], skip=("ra_range = [float(ra_range[0]), float(ra_range[1])]",
+                                 "dec_range = [float(dec_range[0]), float(dec_range[1])]"))   # identity on the reals
     if t.dev:
         raise Untranslatable("randsphere draws fewer deviates than the model")
     defs.append("Definition gen_randsphere (ra0 ra1 dec0 dec1 u1 u2 : R) : R * R :=\n%s\n  %s." % (lets, _ret(last.orelse[0], 2)))
@@ -247,6 +249,8 @@ def translate(repo):
             or [ast.unparse(d) for d in f.args.defaults] != ["False", "False", "None"]:
         raise Untranslatable("randcap signature")
     b = _nodoc(f)
+    # conversions of the arguments to double precision are the identity on the reals they denote
+    b = [st for st in b if ast.unparse(st) not in ("ra = np.float64(ra)", "dec = np.float64(dec)", "rad = np.float64(rad)")]
     if len(b) != 4 or ast.unparse(b[0]) != SKIP_RNG:
         raise Untranslatable("randcap: top-level structure")
     thr = b[1]
